@@ -18,6 +18,7 @@ import MW.Lemmas.RemoveEx
 import MW.Lemmas.TxmgrCodecRec
 import MW.Lemmas.RemoveReach2
 import MW.Lemmas.RemoveMidCex
+import MW.Lemmas.RemoveKeep
 import MW.Lemmas.RemoveInterleave2Ex
 import MW.Lemmas.RemoveInterleave3Ex
 import MW.Lemmas.RemoveInterleave4Ex
@@ -831,10 +832,18 @@ example (o : StepOut) (h : removeStep 20000 (MW.Lemmas.PendHist.exE.ctx MW.Lemma
     Inv { (MW.Lemmas.PendHist.exE.ctx MW.Lemmas.RemoveReach.exWf.node) with own := MW.Lemmas.RemoveReach.exOwn', wallets := [] }
       o.s MW.Lemmas.RemoveReach.exWf.sp.chain := MW.Lemmas.RemoveReach.ex_projects_reachable o h
 
-/-- THE FULL INTERLEAVING STATEMENT, kept type-checked — and FALSE of the model (next theorem): from C01's invariant for
-    the full keystore table, with `w` flagged and every other keystore's wallet ready, ANY history of removal steps,
-    announced node states (extensions and reorganisations), unconfirmed transactions and restarts that ends with the
-    finishing step leaves C01's invariant for the table without `w` on the chain the follower was last told about. -/
+/-- THE FULL INTERLEAVING STATEMENT, kept type-checked — OPEN: from C01's invariant for the full keystore table, with
+    `w` flagged and every other keystore's wallet ready, ANY history of removal steps, announced node states (extensions
+    and reorganisations), unconfirmed transactions and restarts that ends with the finishing step leaves C01's invariant
+    for the table without `w` on the chain the follower was last told about.
+    Status: it was FALSE of the model of the code before the D45 repair (`remove_interleaved_unrepaired_false`: a
+    reorganisation between two steps below a block connected before the first step left a debit for ever).  The model
+    now follows the repaired code (`MW.Model.Remove.inUse`): the refuting history ends in the invariant
+    (`remove_interleaved_cex_repaired`), every removal step keeps "each credit / debit has its tx record", which is what
+    Rollback needs to reach them (`remove_step_keeps_reach`), and the proved domains are unchanged (`remove_interleaved_ext`,
+    `…_above`, `…_above_nopend`, `remove_after_follower_projects`).  Not proved: reorganisations between two steps that go
+    below the tip the follower had at the first step, in general (needs `MW.Lemmas.RemoveSim.Sub` with the wallet-keyed
+    buckets of `w` allowed to differ, and `MW.Lemmas.RemoveSimRb.disconnectBlock_sim` without `NewEq`). -/
 def remove_interleaved_projects_full : Prop :=
   ∀ (limit : Nat) (c : Ctx) (w : Wid) (addrs : List Addr) (own' : Own) (G : Block) (x0 x : ISt) (evs : List IEv)
     (ws' : List Wid),
@@ -850,15 +859,54 @@ def remove_interleaved_projects_full : Prop :=
     irun limit c w addrs x0 evs = some x → x.fin = true →
     Inv { c with own := own', wallets := ws', node := x.node } x.s x.node.chain
 
-/-- **remove_interleaved_projects_literal_false.**  The full statement is FALSE of the model: with step size 1, W2's
-    coinbase C1 pays W2 twice and W1 once, X3 spends both coins of W2.  Step 1 deletes one credit with its debit and —
-    X3 being needed by nobody else — X3's tx record; a reorganisation below C1's block then cannot roll X3 back
-    (no record) but rolls C1 back (W1 needs it), erasing the other credit; the finishing step finds nothing left of W2
-    and the debit of the erased credit stays for ever (`MW.Lemmas.RemoveMidCex`; on the real code, with 20 003 credits:
-    corpus-candidates/C08-reorg-between-steps-dangling-debit.ops, `dangling` = `d:X3:1`; candidate repair
-    fixes/C08-interleaved-debit.patch: a tx record is kept while a credit or a debit of its transaction is left). -/
-theorem remove_interleaved_projects_literal_false : ¬ remove_interleaved_projects_full :=
-  MW.Lemmas.RemoveMidCex.not_interleavedProjects
+/-- **remove_interleaved_cex_repaired.**  The history that refuted the full statement for the unrepaired model (W2's
+    coinbase C1 pays W2 twice and W1 once, X3 spends both coins of W2; step size 1: step · reorganisation below C1's block ·
+    step) ends, on the model of the REPAIRED code, in C01's invariant for W1's keystore alone on the new chain: the first
+    step keeps X3's tx record (its debit of the second coin is left), so the reorganisation rolls X3 back. -/
+theorem remove_interleaved_cex_repaired (x : ISt)
+    (h : irun 1 MW.Lemmas.RemoveMidCex.ctx "W2" ["A2"] MW.Lemmas.RemoveMidCex.x0 MW.Lemmas.RemoveMidCex.evs = some x) :
+    x.fin = true ∧ x.node = MW.Lemmas.RemoveMidCex.nodeB ∧
+    Inv { MW.Lemmas.RemoveMidCex.ctx with own := MW.Lemmas.RemoveMidCex.own', wallets := ["W1"], node := x.node } x.s
+      x.node.chain :=
+  MW.Lemmas.RemoveMidCex.interleaved_inv x h
+
+/-- **remove_interleaved_unrepaired_false.**  Necessity of the repair, at model level: with `minedStep` as it was before
+    D45 (`MW.Lemmas.RemoveMidCex.Unrepaired`: a removable tx record is erased whatever is left under its key) the same
+    history runs to its finishing step and does NOT end in the invariant — the debit (X3, B2, 0) stays for ever.  Every
+    hypothesis of the full statement holds of this history (`RemoveMidCex.remHyp`, `inv_stF`, `evs_ok`, …). -/
+theorem remove_interleaved_unrepaired_false :
+    (MW.Lemmas.RemoveMidCex.Unrepaired.irun 1 MW.Lemmas.RemoveMidCex.ctx "W2" ["A2"] MW.Lemmas.RemoveMidCex.x0
+        MW.Lemmas.RemoveMidCex.evs).isSome = true ∧
+    ∀ x, MW.Lemmas.RemoveMidCex.Unrepaired.irun 1 MW.Lemmas.RemoveMidCex.ctx "W2" ["A2"] MW.Lemmas.RemoveMidCex.x0
+        MW.Lemmas.RemoveMidCex.evs = some x →
+      x.fin = true ∧ x.node = MW.Lemmas.RemoveMidCex.nodeB ∧
+      ¬ Inv { MW.Lemmas.RemoveMidCex.ctx with own := MW.Lemmas.RemoveMidCex.own', wallets := ["W1"], node := x.node } x.s
+        x.node.chain :=
+  ⟨MW.Lemmas.RemoveMidCex.Unrepaired.run_some, MW.Lemmas.RemoveMidCex.Unrepaired.interleaved_not_inv⟩
+
+/-- **remove_step_keeps_reach.**  The D45 repair as an invariant, for ARBITRARY stores, any step size: if every credit and
+    every debit has the tx record of its transaction (`Reach`: that is how Rollback finds them — block record → tx record →
+    the credits / debits under its key), then so it is after one transaction of asyncRemove, finishing or not. -/
+theorem remove_step_keeps_reach (limit : Nat) (c : Ctx) (w : Wid) (addrs : List Addr) (s : Store) (o : StepOut)
+    (hne : addrs ≠ []) (h : removeStep limit c w addrs s = some o) (hR : MW.Lemmas.RemoveKeep.Reach s) :
+    MW.Lemmas.RemoveKeep.Reach o.s :=
+  MW.Lemmas.RemoveKeep.removeStep_reach limit c w addrs s o hne h hR
+
+/-- … it holds whenever the removal starts (C01's invariant gives it) … -/
+theorem remove_reach_of_inv {c : Ctx} {s : Store} {chain : List Block} (hI : Inv c s chain)
+    (hV : ChainValid c.own chain) : MW.Lemmas.RemoveKeep.Reach s :=
+  MW.Lemmas.RemoveKeep.inv_reach hI hV
+
+/-- … and the worker loop keeps it however many transactions it takes -/
+theorem remove_run_keeps_reach (limit : Nat) (c : Ctx) (w : Wid) (addrs : List Addr) (hne : addrs ≠ []) (n : Nat)
+    {s s' : Store} (hR : MW.Lemmas.RemoveKeep.Reach s) (h : run limit c w addrs n s = .done s') :
+    MW.Lemmas.RemoveKeep.Reach s' :=
+  MW.Lemmas.RemoveKeep.run_reach limit c w addrs hne n hR h
+
+/-- non-vacuity: the flagged store of the counterexample satisfies `Reach`; after the first step (size 1) the debit
+    (X3, B2, 0) is left and so is X3's tx record -/
+example : MW.Lemmas.RemoveKeep.Reach MW.Lemmas.RemoveMidCex.stF :=
+  MW.Lemmas.RemoveKeep.inv_reach MW.Lemmas.RemoveMidCex.inv_stF MW.Lemmas.RemoveMidCex.validA
 
 /-- **remove_flagged_follower_keeps.**  While `w` is flagged for removal (not ready) and no removal step has run, a
     notification of ANY block of the node's best chain — tip extension or reorganisation, above, at or below the height
